@@ -435,12 +435,15 @@ def _compute_cam_pos0(
   targetid = cam_targetbodyid[camid]
   cam_xpos = cam_xpos_in[worldid, camid]
 
+  cam_poscom0_id = worldid % cam_poscom0_out.shape[0]
+  cam_mat0_id = worldid % cam_mat0_out.shape[0]
+
   cam_pos0_out[cam_pos0_id, camid] = cam_xpos - xpos_in[worldid, bodyid]
   if targetid >= 0:
-    cam_poscom0_out[cam_pos0_id, camid] = cam_xpos - subtree_com_in[worldid, targetid]
+    cam_poscom0_out[cam_poscom0_id, camid] = cam_xpos - subtree_com_in[worldid, targetid]
   else:
-    cam_poscom0_out[cam_pos0_id, camid] = cam_xpos - subtree_com_in[worldid, bodyid]
-  cam_mat0_out[cam_pos0_id, camid] = cam_xmat_in[worldid, camid]
+    cam_poscom0_out[cam_poscom0_id, camid] = cam_xpos - subtree_com_in[worldid, bodyid]
+  cam_mat0_out[cam_mat0_id, camid] = cam_xmat_in[worldid, camid]
 
 
 @wp.kernel
@@ -461,12 +464,15 @@ def _compute_light_pos0(
   targetid = light_targetbodyid[lightid]
   light_xpos = light_xpos_in[worldid, lightid]
 
+  light_poscom0_id = worldid % light_poscom0_out.shape[0]
+  light_dir0_id = worldid % light_dir0_out.shape[0]
+
   light_pos0_out[light_pos0_id, lightid] = light_xpos - xpos_in[worldid, bodyid]
   if targetid >= 0:
-    light_poscom0_out[light_pos0_id, lightid] = light_xpos - subtree_com_in[worldid, targetid]
+    light_poscom0_out[light_poscom0_id, lightid] = light_xpos - subtree_com_in[worldid, targetid]
   else:
-    light_poscom0_out[light_pos0_id, lightid] = light_xpos - subtree_com_in[worldid, bodyid]
-  light_dir0_out[light_pos0_id, lightid] = light_xdir_in[worldid, lightid]
+    light_poscom0_out[light_poscom0_id, lightid] = light_xpos - subtree_com_in[worldid, bodyid]
+  light_dir0_out[light_dir0_id, lightid] = light_xdir_in[worldid, lightid]
 
 
 @wp.kernel
